@@ -167,6 +167,13 @@ impl Object {
     }
 
     pub fn is_a_valid_key(&self) -> bool {
+        // NaN is not equal to itself: as a key it could only be found again
+        // through the identity of the object that holds it
+        if let Object::Float(f) = self {
+            if f.is_nan() {
+                return false;
+            }
+        }
         matches!(
             self,
             Object::Str(_)
